@@ -29,7 +29,7 @@ func ruleC15Index(r *Run) {
 	for _, f := range w.Funcs {
 		for i, st := range storesToField(f, nameF) {
 			construct := fmt.Sprintf("%s:store Route.name#%d", FuncName(f), i+1)
-			fa := st.Addr.(*ssa.FieldAddr)
+			fa := fieldAddrOf(st)
 			if al, ok := fa.X.(*ssa.Alloc); ok && al.Heap {
 				r.Check(rule, construct, w.InstrPos(st), true, "name set in a constructor (route not yet registered; appendRoute indexes it)")
 				continue
@@ -464,7 +464,7 @@ func eachFuncMapWrites(w *World, g *ssa.Global, fn func(f *ssa.Function, in ssa.
 func ruleC16Only(r *Run) {
 	w := r.W
 	rule := "C16-ONLY"
-	r.Floor(rule, 4)
+	r.Floor(rule, 3) // one registration site: guard, once-per-iteration, nothing outside the loop
 	res := w.Fn("rux", "Router.Resource")
 	addNamed := w.Fn("rux", "Router.AddNamed")
 	use := w.Fn("rux", "Route.Use")
